@@ -8,10 +8,11 @@ import (
 
 func TestReplay(t *testing.T) {
 	verif.ReplayMain(map[string]func(){
-		"HarnessCancelVsCall":     HarnessCancelVsCall,
-		"HarnessClientWriters":    HarnessClientWriters,
-		"HarnessCloseDuringWrite": HarnessCloseDuringWrite,
-		"HarnessPeerPings":        HarnessPeerPings,
-		"HarnessServerWriters":    HarnessServerWriters,
+		"HarnessCancelVsCall":       HarnessCancelVsCall,
+		"HarnessClientWriters":      HarnessClientWriters,
+		"HarnessCloseDuringWrite":   HarnessCloseDuringWrite,
+		"HarnessPeerPings":          HarnessPeerPings,
+		"HarnessServerWriters":      HarnessServerWriters,
+		"HarnessStalledThenDrained": HarnessStalledThenDrained,
 	})
 }
